@@ -1,6 +1,7 @@
 import CueVerif.Driver.Proto
 import CueVerif.Spec.Json
 import CueVerif.Model.Json
+import CueVerif.Driver.C10Doc
 /-!
 Protocol handler for C10 (byte strings in hex, "-" = empty):
 
@@ -17,6 +18,10 @@ Protocol handler for C10 (byte strings in hex, "-" = empty):
   setstr <s>    apd SetString: `finite <neg> <coeff> <exp> <err>` | `nan <neg> <err>` | `inf <neg> <err>`
   esc <s>       encoder: hex of internal/encoding/json.Marshal(s)
   fmt <neg> <coeff> <exp>   encoder: hex of apd Append 'G' of a finite decimal
+  doc <tree words>          encoder: hex of Value.MarshalJSON of the value tree (Driver/C10Doc.lean)
+  mstream <tree words of a list>   hex of pkg/encoding/json.MarshalStream
+  docdata <text>            SPEC: `ok <tree words>` of the data the reference parser reads | `invalid`
+  jstream <text>            SPEC: `<n> <eof|err> | tree | tree …` the values of a stream of JSON texts
 -/
 namespace CueVerif.Driver.C10
 open CueVerif CueVerif.Driver CueVerif.Json
@@ -46,6 +51,9 @@ def decStr : ApdDec × Bool → String
 
 /-- protocol handler for C10: words of one op line (after the property id) → answer -/
 def handle (ws : List String) : String :=
+  match C10Doc.handleDoc ws with
+  | some a => a
+  | none =>
   match ws with
   | ["str", h] =>
     match unhex h with
